@@ -115,6 +115,33 @@ def gen_T08():
     src_up = ast.unparse(find_def(t, 'capUpkeep', 'Irc'))
     need('if not capabilities_responded <= self.state.capabilities_req:' in src_up
          and 'elif capabilities_responded == self.state.capabilities_req:' in src_up, 'capUpkeep comparison changed')
+    # the repaired shapes (fix: C09.F8, C08.F7, C08.F24) the model mirrors
+    src_ru = ast.unparse(find_def(t, '_saslRequiredButNotAuthenticated', 'Irc'))
+    need('return not self.sasl_authenticated and conf.supybot.networks.get(self.network).sasl.required()' in src_ru,
+         '_saslRequiredButNotAuthenticated changed')
+    end = find_def(t, 'endCapabilityNegociation', 'Irc')
+    eb = _body(end)
+    need(len(eb) == 4 and isinstance(eb[0], ast.If) and isinstance(eb[1], ast.If), 'endCapabilityNegociation: expected two guards, transition, CAP END')
+    need(ast.unparse(eb[0].test) == 'self._saslRequiredButNotAuthenticated()' and not eb[0].orelse and len(eb[0].body) == 3
+         and ast.unparse(eb[0].body[0]).startswith('log.error(')
+         and [ast.unparse(x) for x in eb[0].body[1:]] == ['self.driver.reconnect(wait=True)', 'return'],
+         'endCapabilityNegociation: sasl.required guard changed')
+    need(ast.unparse(eb[1].test) == 'self.state.capabilities_req - self.state.capabilities_ack - self.state.capabilities_nak'
+         and len(eb[1].body) == 1 and isinstance(eb[1].body[0], ast.Return) and not eb[1].orelse,
+         'endCapabilityNegociation: outstanding-request guard changed')
+    need(ast.unparse(eb[2]) == 'self.state.fsm.on_cap_end(self, msg)' and "args=('END',)" in ast.unparse(eb[3]), 'endCapabilityNegociation tail changed')
+    b376 = _body(find_def(t, 'do376', 'Irc'))
+    need(isinstance(b376[0], ast.If) and ast.unparse(b376[0].test) == 'self._saslRequiredButNotAuthenticated()' and not b376[0].orelse
+         and len(b376[0].body) == 3 and ast.unparse(b376[0].body[0]).startswith('log.error(')
+         and [ast.unparse(x) for x in b376[0].body[1:]] == ['self.driver.reconnect(wait=True)', 'return']
+         and ast.unparse(b376[1]) == 'self.state.fsm.on_end_motd(self, msg)', 'do376: sasl.required guard changed')
+    src_ls = ast.unparse(find_def(t, 'doCapLs', 'Irc'))
+    need('if not new_caps or not self._requestCaps(new_caps):\n            self.endCapabilityNegociation(msg)\n    else:' in src_ls, 'doCapLs: request-or-end changed')
+    need(ast.unparse(_body(find_def(t, '_requestCaps', 'Irc'))[-1]) == 'return bool(cap_lines)', '_requestCaps return value changed')
+    src_ms = ast.unparse(find_def(t, '_maybeStartSasl', 'Irc'))
+    need("if not self.sasl_authenticated and 'sasl' in self.state.capabilities_ack:" in src_ms
+         and 'elif self.state.fsm.state == IrcStateFsm.States.INIT_CAP_NEGOTIATION:\n        self.endCapabilityNegociation(msg)' in src_ms,
+         '_maybeStartSasl changed')
     src_903 = ast.unparse(find_def(t, 'do903', 'Irc'))
     need('self.sasl_authenticated = True' in src_903 and 'on_sasl_auth_finished' in src_903 and 'endCapabilityNegociation' in src_903, 'do903 changed')
     has_filter = any(isinstance(n, ast.FunctionDef) and n.name == 'filterSaslMechanisms' for n in irc.body)
